@@ -799,3 +799,92 @@ Proof.
     apply in_map_iff. exists (p ++ stars (S k)). split; [now apply plain_classify|exact Hin].
   - unfold url_pos. simpl a_path. rewrite (glob_prefix p k path Hpre). apply orb_true_r.
 Qed.
+
+(* ------------------------------------------------------------------ a match overlapping a Sync *)
+Lemma cs_sync_keeps s new arr l :
+  nth_error (cs_heap s) arr = Some l -> nth_error (cs_heap (cs_sync s new)) arr = Some l.
+Proof.
+  intros H. unfold cs_sync; simpl. rewrite nth_error_app1; [exact H|].
+  apply nth_error_Some. congruence.
+Qed.
+
+Lemma skipn_nth {A} (l : list A) : forall i, (i < List.length l)%nat ->
+  exists p, nth_error l i = Some p /\ skipn i l = p :: skipn (S i) l.
+Proof.
+  induction l as [|x l IH]; intros i H; simpl in H; [lia|].
+  destruct i as [|i]; simpl; [eauto|]. apply IH. lia.
+Qed.
+
+Lemma scan_spec a new arr l : forall n i s fire s' r fire',
+  nth_error (cs_heap s) arr = Some l -> (i + n = List.length l)%nat ->
+  scan a s new arr i n fire = (s', r, fire') ->
+  nth_error (cs_heap s') arr = Some l /\
+  r = option_map (fun j => (i + j)%nat) (find_index (policy_matches a) (skipn i l)).
+Proof.
+  induction n as [|n IH]; intros i s fire s' r fire' Hh Hlen E; simpl in E.
+  - injection E as <- <- <-. split; [exact Hh|].
+    assert (i = List.length l) as -> by lia. now rewrite skipn_all.
+  - set (s1 := match fire with Some O => cs_sync s new | _ => s end) in E.
+    assert (H1 : nth_error (cs_heap s1) arr = Some l).
+    { subst s1. destruct fire as [[|j]|]; auto using cs_sync_keeps. }
+    destruct (skipn_nth l i ltac:(lia)) as (p & Hp & Hs).
+    unfold cs_read in E. rewrite H1, Hp in E. rewrite Hs.
+    remember (skipn (S i) l) as rest eqn:Hrest. simpl.
+    destruct (policy_matches a p).
+    + injection E as <- <- <-. split; [exact H1|]. simpl. now rewrite Nat.add_0_r.
+    + destruct (IH (S i) s1 _ s' r fire' H1 ltac:(lia) E) as [Hh' ->]. split; [exact Hh'|].
+      rewrite <- Hrest.
+      destruct (find_index (policy_matches a) rest); simpl; [|reflexivity].
+      f_equal. lia.
+Qed.
+
+Lemma match_from_is a sl new eps fire l :
+  nth_error (cs_heap sl) (cs_cur sl) = Some l ->
+  match_from a sl new eps fire = match_attributes a l eps.
+Proof.
+  intros Hl. unfold match_from, cs_len. rewrite Hl.
+  destruct (scan a sl new (cs_cur sl) 0 (List.length l) fire) as [[s1 r] fire1] eqn:E.
+  destruct (scan_spec a new (cs_cur sl) l (List.length l) O sl fire s1 r fire1 Hl (Nat.add_0_l _) E) as [H1 Hr].
+  simpl in Hr.
+  assert (H2 : nth_error (cs_heap (match fire1 with Some _ => cs_sync s1 new | None => s1 end)) (cs_cur sl) = Some l).
+  { destruct fire1; auto using cs_sync_keeps. }
+  unfold match_attributes, match_policies, cs_read. rewrite H2, Hr.
+  destruct (find_index (policy_matches a) l); reflexivity.
+Qed.
+
+(* whatever the interruption point, the overlapped match is the decision under the old list
+   (Sync after the load) or under the new list (Sync before the load) *)
+Lemma overlapped_is a old new eps k :
+  overlapped_match a old new eps k = match_attributes a (match k with O => new | S _ => old end) eps.
+Proof.
+  destruct k as [|j]; unfold overlapped_match; apply match_from_is; reflexivity.
+Qed.
+
+Lemma overlapping_sync_old_or_new a old new eps k :
+  (overlapped_match a old new eps k = match_attributes a old eps \/
+   overlapped_match a old new eps k = match_attributes a new eps) /\
+  (forall f ups, overlapped_match a old new eps k = Some (f, ups) ->
+     exists ps i p, (ps = old \/ ps = new) /\ first_match a ps = Some i /\ nth_error ps i = Some p /\
+                    (exists r, In r (p_rules p) /\ rule_sem a r = true) /\
+                    f = flow_name p /\ ups = (if list_len0 (p_subset p) then eps else p_subset p)).
+Proof.
+  rewrite overlapped_is. split; [destruct k; auto|].
+  intros f ups H. set (ps := match k with O => new | S _ => old end) in *.
+  exists ps. unfold match_attributes in H. rewrite route_is_first_match in H.
+  destruct (first_match a ps) as [i|] eqn:Hf; [|discriminate].
+  destruct (nth_error ps i) as [p|] eqn:Hn; [|discriminate]. injection H as <- <-.
+  exists i, p. split; [subst ps; destruct k; auto|]. split; [reflexivity|]. split; [exact Hn|].
+  split; [|split; reflexivity].
+  apply first_match_least in Hf as (p' & Hn' & Hr & _). rewrite Hn in Hn'. injection Hn' as <-. exact Hr.
+Qed.
+
+Lemma decision_is_model a ps eps :
+  decision a ps eps = match match_attributes a ps eps with
+                      | None => mkMA true false "" []
+                      | Some (f, ups) => mkMA false true f ups end.
+Proof.
+  unfold decision, match_attributes. rewrite route_is_first_match.
+  destruct (first_match a ps) as [i|]; [|reflexivity].
+  destruct (nth_error ps i) as [p|]; [|reflexivity]. unfold flow_name.
+  destruct (p_flow p); destruct (p_subset p); reflexivity.
+Qed.
